@@ -626,6 +626,10 @@ class StateMachine:
         if state is None and self.__default_state is not None:
             state = self.__default_state
             if self.__state != state:
+                if self.__engaged:
+                    # the regular states stopped running, that goes through done()
+                    done_called = True
+                    self.done()
                 state.ran = False
                 self.__state = state
 
